@@ -13,11 +13,11 @@ Import ListNotations.
    reports no per-file error, then every selected source entry exists in the destination with its kind;
    every file that was absent or differed under the active comparison rule has the source's content, size
    and mtime (whatever the size of the file it replaced); files that did not differ are untouched. *)
-Theorem C01_postcondition : forall refuse ds c now U src dst,
+Theorem C01_postcondition : forall refuse ds c now U keep src dst,
   src_wf src -> c_dry_run c = false -> dst [] = None ->
   (forall e, In e src -> se_is_dir e = true -> forall cc s t, dst (se_path e) <> Some (File cc s t)) ->
   (forall e, In e src -> se_is_dir e = false -> dst (se_path e) <> Some Dir) ->
-  let r := run refuse ds c now U src dst in
+  let r := run refuse ds c now U keep src dst in
   r_refused r = false -> r_errors r = [] ->
   forall e, In e src ->
     exists x, r_fs r (se_path e) = Some x /\
@@ -43,7 +43,7 @@ Example C01_big_update_carries_mtime :
   let c := mk_cfg false false 50 false false false false 100 100 in
   let src := [mk_sentry [1%N] false 200 1000%Z 7 false] in
   let dst : fs := fun p => if peqb p [1%N] then Some (File 8 150 500%Z) else None in
-  r_fs (run (fun _ _ _ => false) (fun _ => (0%N, 0%Z)) c 9000%Z [[1%N]] src dst) [1%N] = Some (File 7 200 1000%Z).
+  r_fs (run (fun _ _ _ => false) (fun _ => (0%N, 0%Z)) c 9000%Z [[1%N]] [] src dst) [1%N] = Some (File 7 200 1000%Z).
 Proof. vm_compute. reflexivity. Qed.
 
 (* ---- non-vacuity: a mixed tree (nested directory, create, small update, skip) satisfies the hypotheses ---- *)
@@ -54,7 +54,7 @@ Definition ex_dst : fs := fun p =>
   if peqb p [3%N] then Some (File 9 21 2000%Z) else if peqb p [4%N] then Some (File 7 30 3000500000000%Z)
   else if peqb p [5%N] then Some (File 1 1 1%Z) else None.
 Example ex_run :
-  let r := run (fun _ _ _ => false) (fun _ => (0%N, 0%Z)) (mk_cfg false false 50 false false false false 100 100) 9%Z [[3%N]; [4%N]; [5%N]] ex_src ex_dst in
+  let r := run (fun _ _ _ => false) (fun _ => (0%N, 0%Z)) (mk_cfg false false 50 false false false false 100 100) 9%Z [[3%N]; [4%N]; [5%N]] [] ex_src ex_dst in
   r_errors r = [] /\ r_events r = [(ACreate, [1%N]); (ACreate, [1%N; 2%N]); (AUpdate, [3%N]); (ASkip, [4%N])] /\
   r_fs r [1%N; 2%N] = Some (File 5 10 1000%Z) /\ r_fs r [3%N] = Some (File 6 20 2000%Z) /\ r_fs r [5%N] = Some (File 1 1 1%Z).
 Proof. vm_compute. repeat split. Qed.
